@@ -174,3 +174,108 @@ Proof.
     as (s1 & nd & t & ol & il & bd & _ & _ & _ & _ & _ & _ & _ & _ & _ & _ & _ & _ & Hd & _).
   unfold wdim. rewrite Hd, aget_snoc_other by lia. reflexivity.
 Qed.
+
+(* ---- split_nodes preserves the value of the network under the kernel contract -------------------------------------- *)
+Section SplitValue.
+  Variable R : Type.
+  Variables (zero one : R) (add mul : R -> R -> R).
+  Hypothesis SR : comm_semiring zero one add mul.
+  Variable tbl : nat -> list nat -> R.
+
+  Local Notation net_value := (net_value zero one add mul).
+  Local Notation sum_upto := (sum_upto R zero add).
+
+  Lemma sr_mul_1_r x : mul x one = x.
+  Proof. rewrite (csr_mul_comm _ _ _ _ SR). apply (csr_mul_1_l _ _ _ _ SR). Qed.
+
+  (* a group of atoms A whose summed wires B the other atoms do not touch factors out as the value of
+     the sub-diagram (A, B) *)
+  Lemma sum_factor (wo : nat -> list wire) (dim : wire -> nat) A B restA X rho :
+    atoms_avoid wo restA B ->
+    sum_bnd R zero add dim (X ++ B) (atoms_val R one mul wo tbl (A ++ restA)) rho
+    = sum_bnd R zero add dim X
+        (fun r => mul (sum_bnd R zero add dim B (atoms_val R one mul wo tbl A) r) (atoms_val R one mul wo tbl restA r)) rho.
+  Proof.
+    intros Hav. rewrite (sum_bnd_app R zero add dim). apply (sum_bnd_ext_F R zero add dim). intros r.
+    pose proof (value_join R zero one add mul SR wo dim tbl A restA B [] r) as J.
+    rewrite app_nil_r in J. cbn [sum_bnd] in J. apply J; [intros a _ x _ []|exact Hav].
+  Qed.
+
+  Theorem split_net_value s n o i oid iid kind m rbond s' :
+    wfs s -> split_nodes s n o i oid iid kind m rbond = Some s' -> spec_ok s n o i -> ids_ok s n oid iid ->
+    def_holds zero one add mul s' tbl (last (defs s') dflt_def) ->
+    Permutation (open_wires s') (open_wires s) /\ forall rho, net_value s' tbl rho = net_value s tbl rho.
+  Proof.
+    intros WS Hs Hspec Hids Hdef. pose proof (ws_wf s WS) as W.
+    pose proof (split_preserves_wf s n o i oid iid kind m rbond s' W Hs Hspec Hids) as W'.
+    destruct (split_total_ends s n o i oid iid kind m rbond s' W Hs Hids) as (restE & PE & PE').
+    destruct (split_total_atoms s n o i oid iid kind m rbond s' W Hs Hids) as (restA & PA & PA').
+    destruct (split_new_def s n o i oid iid kind m rbond s' dflt_def W Hs)
+      as (s1 & nd & t & ol & il & bd & Ha & _ & _ & _ & _ & _ & Hlast & _ & _ & _ & _ & _ & _ & _).
+    destruct (split_access_facts _ _ _ _ _ W Ha) as (nd0 & t0 & _ & Et0 & _ & Etr & _ & _ & _ & _ & _ & _ & Ht0).
+    set (b := next_wire s) in *. set (T := tens s n) in *.
+    (* wire ends: the bound wires of T disappear, the bond b appears *)
+    assert (PEE : Permutation (total_ends s' ++ bnd T ++ bnd T) (total_ends s ++ [b] ++ [b])).
+    { rewrite PE', PE. unfold sarr_ends. apply (Permutation_count_occ Nat.eq_dec). intros z.
+      cbn [app]. rewrite !count_occ_app. cbn [count_occ]. rewrite !count_occ_app. destruct (Nat.eq_dec b z); nlia. }
+    destruct (ends_determine_bnd s s' (bnd T) [b] W W' PEE) as [PO PB].
+    split; [exact PO|].
+    set (X := flat_map (fun kt : id * sarr => bnd (snd kt)) (adel n (tensors s)) ++ edge_wires s).
+    assert (ET : aget n (tensors s) = Some T) by (rewrite Ht0; exact Et0).
+    assert (PX : Permutation (net_bnd s) (X ++ bnd T)).
+    { unfold net_bnd, total_bnd, X. rewrite (flat_map_adel_perm _ n T (tensors s) ET). cbn [snd].
+      apply (Permutation_count_occ Nat.eq_dec). intros z. rewrite !count_occ_app. nlia. }
+    assert (PX' : Permutation (net_bnd s') (X ++ [b])).
+    { apply (Permutation_app_inv_r (bnd T)). rewrite PB, PX.
+      apply (Permutation_count_occ Nat.eq_dec). intros z. rewrite !count_occ_app. nlia. }
+    (* the other atoms *)
+    assert (HrA : forall a, In a restA -> exists k tk, aget k (tensors s) = Some tk /\ k <> n /\ In a (atoms tk)).
+    { intros a Hin. pose proof (ws_atoms_nd s WS) as Hnd. rewrite PA in Hnd. apply NoDup_app_iff in Hnd.
+      destruct Hnd as (_ & _ & Hdis).
+      assert (Hat : In a (total_atoms s)) by (apply (Permutation_in _ (Permutation_sym PA)); apply in_or_app; right; exact Hin).
+      unfold total_atoms in Hat. apply in_flat_map in Hat. destruct Hat as ([k tk] & Hk & Hak). cbn [snd] in Hak.
+      apply (In_aget _ _ _ (wf_tnd s W)) in Hk. exists k, tk. split; [exact Hk|]. split; [|exact Hak].
+      intros ->. rewrite ET in Hk. injection Hk as <-. apply (Hdis a Hak Hin). }
+    assert (Av : atoms_avoid (atom_wires s) restA (bnd T)).
+    { intros a Hin. destruct (HrA a Hin) as (k & tk & Ek & Hne & Hak). apply (wfs_atoms_avoid s k tk n T WS Ek ET Hne a Hak). }
+    assert (HrAlt : forall a, In a restA -> a < next_atom s).
+    { intros a Hin. destruct (HrA a Hin) as (k & tk & Ek & _ & Hak). apply (ws_atoms_lt s WS).
+      apply (total_atoms_In s k tk a (aget_In _ _ _ Ek) Hak). }
+    assert (Av' : atoms_avoid (atom_wires s') restA [b]).
+    { intros a Hin x Hx [<-|[]]. rewrite (split_atom_wires_old _ _ _ _ _ _ _ _ _ _ a Hs (HrAlt a Hin)) in Hx.
+      destruct (HrA a Hin) as (k & tk & Ek & _ & Hak). pose proof (aget_In _ _ _ Ek) as Ik.
+      destruct (ws_closed s WS k tk Ek a Hak b Hx) as [Hax|Hbn].
+      - pose proof (wf_wires s W k tk b Ek Hax). unfold b in *. lia.
+      - pose proof (ws_bnd_lt s WS b (total_bnd_In s k tk b Ik Hbn)). unfold b in *. lia. }
+    assert (HTat : forall a, In a (atoms T) -> atom_wires s' a = atom_wires s a).
+    { intros a Hin. apply (split_atom_wires_old _ _ _ _ _ _ _ _ _ _ a Hs). apply (ws_atoms_lt s WS).
+      apply (total_atoms_In s n T a (aget_In _ _ _ ET) Hin). }
+    assert (Hnb_lt : forall w, In w (net_bnd s) -> w < next_wire s).
+    { intros w Hw. unfold net_bnd in Hw. apply in_app_or in Hw. destruct Hw as [Hw|Hw]; [apply (ws_bnd_lt s WS w Hw)|].
+      assert (Hown : In w (own_wires s)) by (rewrite own_wires_split; apply in_or_app; left; exact Hw).
+      unfold own_wires in Hown. apply in_flat_map in Hown. destruct Hown as ([k nk] & Hk & Hwk).
+      apply (wf_own_bound s k nk w W (In_aget _ _ _ (wf_nd s W) Hk) Hwk). }
+    intros rho. unfold InvSem.net_value, value_s.
+    (* left-hand side, in the world of s' *)
+    rewrite (value_perm_gen R zero one add mul SR (atom_wires s') (wdim s') tbl (net_diagram s')
+               {| axes := []; atoms := [next_atom s; S (next_atom s)] ++ restA; bnd := X ++ [b] |} rho PA' PX').
+    rewrite (value_perm_gen R zero one add mul SR (atom_wires s) (wdim s) tbl (net_diagram s)
+               {| axes := []; atoms := atoms T ++ restA; bnd := X ++ bnd T |} rho PA PX).
+    unfold value. cbn [atoms bnd].
+    rewrite (sum_factor (atom_wires s') (wdim s') _ _ _ _ rho Av'), (sum_factor (atom_wires s) (wdim s) _ _ _ _ rho Av).
+    apply sum_bnd_world.
+    - intros w Hw. apply (split_wdim_old _ _ _ _ _ _ _ _ _ _ w W Hs). apply Hnb_lt.
+      apply (Permutation_in _ (Permutation_sym PX)). apply in_or_app. left. exact Hw.
+    - intros r. f_equal.
+      + (* Q.R summed over the bond = the split tensor *)
+        cbn [sum_bnd atoms_val prod_over].
+        transitivity (value_s zero one add mul s' tbl (s_transpose (ol ++ il) t) r).
+        * unfold def_holds in Hdef. rewrite Hlast in Hdef. cbn [kq kr kbond kinput] in Hdef. rewrite <- (Hdef r).
+          apply (sum_upto_ext R zero add). intros k _. rewrite sr_mul_1_r. reflexivity.
+        * unfold value_s. rewrite Etr. unfold value. cbn [s_transpose atoms bnd]. fold T. rewrite <- Ht0. fold T.
+          apply sum_bnd_world; [|intros r'; apply atoms_val_world; exact HTat].
+          intros w Hw. apply (split_wdim_old _ _ _ _ _ _ _ _ _ _ w W Hs). apply (ws_bnd_lt s WS).
+          apply (total_bnd_In s n T w (aget_In _ _ _ ET) Hw).
+      + apply atoms_val_world. intros a Hin. apply (split_atom_wires_old _ _ _ _ _ _ _ _ _ _ a Hs (HrAlt a Hin)).
+  Qed.
+End SplitValue.
